@@ -410,15 +410,20 @@ func (m *MetricStorage) applyGroupOperations(group string, ops []operation.Metri
 			continue
 		}
 		labels := MergeLabels(op.Labels, commonLabels)
+		// The "add"/"set" shortcuts are expanded to Action+Value when parsed from a file,
+		// so each operation must be applied only once.
 		if op.Action == "add" && op.Value != nil {
 			m.groupedVault.CounterAdd(group, op.Name, *op.Value, labels)
+			continue
 		}
 		//nolint:staticcheck
 		if op.Add != nil {
 			m.groupedVault.CounterAdd(group, op.Name, *op.Add, labels)
+			continue
 		}
 		if op.Action == "set" && op.Value != nil {
 			m.groupedVault.GaugeSet(group, op.Name, *op.Value, labels)
+			continue
 		}
 		//nolint:staticcheck
 		if op.Set != nil {
